@@ -27,7 +27,8 @@ func TestVerif_C06_histories(t *testing.T) {
 		depthK1 := mc.Pick(r, 5, 7)
 		depthK2 := mc.Pick(r, 4, 6)
 		r.Rule("BFS over operation sequences from the empty trie; alphabet = Update(k,v1|v2) x6 keys, Update(k,empty) x6, Delete(k) x6, " +
-			"hash+iterate, getall, copy, commit+reopen (28 ops); a state = (model set, committed set, white-box fingerprint of the live trie: " +
+			"hash+iterate, getall, copy, commit+reopen, churn100(k0) and churn100(k5)+hash = 102 toggling + 1 restoring Update on one key, net-zero, " +
+			"which pushes Trie.unhashed/uncommitted over the parallel hasher/committer thresholds anywhere in a history (30 ops); a state = (model set, committed set, white-box fingerprint of the live trie: " +
 			"complete node graph with cached hashes and dirty flags, both tracers, threshold flags, store image); states are merged only when " +
 			"this whole implementation state is identical, so every distinct in-memory shape of the same set is kept apart; every transition " +
 			"is executed on the real trie and checked against the reference")
@@ -40,7 +41,7 @@ func TestVerif_C06_histories(t *testing.T) {
 			depth int
 		}{{c06AlphaK1(), depthK1}, {c06AlphaK2(), depthK2}} {
 			a := cfg.a
-			ops := c06Ops(false)
+			ops := c06OpsHot()
 			names := make([]string, len(ops))
 			for i, o := range ops {
 				names[i] = o.name
@@ -70,11 +71,16 @@ type c06BatchCase struct {
 	Batch string `json:"batch"` // per key: s = not in batch, 1 = v1, 2 = v2, d = empty value
 	Order string `json:"order"` // order of the batch entries
 	Dup   string `json:"dup"`   // "" or "k<i>=<v>": a second entry for the first batch key, appended at the end (later entry wins)
+	// Hot: "" | "churn(k<i>)": the batch is preceded, without hashing in between, by 102 toggling + 1 restoring Update
+	// calls on that key (net-zero), so Trie.unhashed is >= 100 when the result is hashed (parallel hasher) |
+	// "big-batch": the batch entries are preceded, inside the same UpdateBatch call, by rounds of toggling entries
+	// for the same keys (>= 100 entries in total, later entry wins)
+	Hot string `json:"hot,omitempty"`
 }
 
 // c06BatchPath predicts (for the outcome histogram only, never for the verdict) which
 // path UpdateBatch takes, from the documented rule.
-func c06BatchPath(a *c06Alpha, base c06Model, batch [c06NKeys]uint8, dupKey int, dupVal uint8) string {
+func c06BatchPath(a *c06Alpha, base c06Model, batch [c06NKeys]uint8, dupKey int, dupVal uint8, bigN int) string {
 	n := 0
 	for _, b := range batch {
 		if b != 0 {
@@ -83,6 +89,9 @@ func c06BatchPath(a *c06Alpha, base c06Model, batch [c06NKeys]uint8, dupKey int,
 	}
 	if dupKey >= 0 {
 		n++
+	}
+	if n > 0 && bigN > 0 {
+		n = bigN
 	}
 	var child, del [16]bool
 	for k, v := range base {
@@ -131,7 +140,10 @@ func TestVerif_C06_batches(t *testing.T) {
 		r.Rule("batches: alphabets KB (2-byte keys, 4 root children) and KB32 (32-byte keys) x base set (quick: all 64 subsets x value patterns {alternating: hashed and committed, all long: committed}, KB32 alternating, committed, batches over {skip,v2,empty} only; " +
 			"thorough: KB all 729 value assignments hashed and committed plus the 176 patterned bases never hashed, KB32 the 176 patterned bases) x base preparation {fresh, hashed, committed+reopened} x every batch in {skip,v1,v2,empty}^6 (4096) " +
 			"applied with one real UpdateBatch call (goroutines run free; the oracle does not depend on the schedule); plus, for KB with alternating " +
-			"base values, every non-empty batch with a second, different entry for its first key appended (later entry wins); distinct = distinct " +
+			"base values, every non-empty batch with a second, different entry for its first key appended (later entry wins); a deterministic quarter " +
+			"of the plain cases is hot: either the batch is preceded (no Hash in between) by 102 toggling + 1 restoring Update calls on one key inside or " +
+			"outside the batch, or the batch itself is blown up to >= 100 entries with toggling entries for its own keys, so that the result is hashed by " +
+			"the parallel hasher (Trie.unhashed >= 100), incl. roots with a child encoding to < 32 bytes; distinct = distinct " +
 			"(alphabet, preparation, base set, resulting set). sets: every one of the 3^6 value assignments of K1,K2,KB,KB32 built by StackTrie " +
 			"(ascending), by a fresh Trie in ascending and descending insertion order and by StateTrie, each compared with the reference")
 		r.Assume("reference = independent Yellow-Paper MPT (own RLP, hex-prefix, embedding rule) + crypto.Keccak256")
@@ -259,7 +271,22 @@ func TestVerif_C06_batches(t *testing.T) {
 					final[dupKey] = dupVal % 3
 					dupDesc = fmt.Sprintf("k%d=%c", dupKey, "s12d"[dupVal])
 				}
-				c := c06BatchCase{a.Name, sh.base.String(), sh.prep, string(desc), order, dupDesc}
+				// hot variants on a pseudo-randomly (multiplicative hash of shard and batch number, so
+				// deterministic and unbiased w.r.t. the batch digits) chosen quarter of the plain cases
+				hot, churnKey, bigN := "", -1, 0
+				if !sh.dup {
+					h := uint32(si*4096+bi) * 2654435761
+					switch h >> 29 {
+					case 1:
+						churnKey = int(h>>20) % c06NKeys
+						hot = fmt.Sprintf("churn(k%d)", churnKey)
+					case 5:
+						if bi != 0 {
+							hot = "big-batch"
+						}
+					}
+				}
+				c := c06BatchCase{a.Name, sh.base.String(), sh.prep, string(desc), order, dupDesc, hot}
 				r.Case(c, func() error {
 					if baseTrie == nil {
 						if err := mkBase(); err != nil {
@@ -267,15 +294,33 @@ func TestVerif_C06_batches(t *testing.T) {
 						}
 					}
 					tr := baseTrie.Copy() // deep copy; the store is only read from here on
+					if churnKey >= 0 {
+						if err := c06Churn(tr, a, churnKey, sh.base[churnKey]); err != nil {
+							return err
+						}
+					}
 					var keys, vals [][]byte
+					var inBatch []int
 					for i := 0; i < c06NKeys; i++ {
 						k := i
 						if order == "desc" {
 							k = c06NKeys - 1 - i
 						}
-						if batch[k] == 0 {
-							continue
+						if batch[k] != 0 {
+							inBatch = append(inBatch, k)
 						}
+					}
+					if hot == "big-batch" {
+						// rounds of toggling entries (v1/v2) for the batch's keys before the real entries
+						rounds := 100/len(inBatch) + 1
+						for rd := 0; rd < rounds; rd++ {
+							for _, k := range inBatch {
+								keys = append(keys, a.Keys[k])
+								vals = append(vals, c06Vals[1+(rd+k)%2])
+							}
+						}
+					}
+					for _, k := range inBatch {
 						keys = append(keys, a.Keys[k])
 						vals = append(vals, c06Vals[batch[k]%3])
 					}
@@ -288,12 +333,26 @@ func TestVerif_C06_batches(t *testing.T) {
 					}
 					return c06CheckRead(tr, a, final)
 				})
-				label := c06BatchPath(a, sh.base, batch, dupKey, dupVal)
+				if hot == "big-batch" {
+					n := 0
+					for _, b := range batch {
+						if b != 0 {
+							n++
+						}
+					}
+					bigN = n * (100/n + 2)
+				}
+				label := c06BatchPath(a, sh.base, batch, dupKey, dupVal, bigN)
 				if sh.dup {
 					label = "dup-entry/" + label
 				}
+				if churnKey >= 0 {
+					label = "hot-churn/" + label
+				} else if hot != "" {
+					label = "hot-big-batch/" + label
+				}
 				outcomes[label]++
-				r.DistinctHash(mc.Hash64(a.Name + sh.prep + dupDesc + sh.base.String() + final.String()))
+				r.DistinctHash(mc.Hash64(a.Name + sh.prep + dupDesc + hot + sh.base.String() + final.String()))
 				if bi == 1+si%4095 && si%97 == 0 {
 					r.Sample(c)
 				}
